@@ -69,6 +69,15 @@ func libEffects(x *ssa.Call) ([]string, bool) {
 			return []string{"G:blen"}, true
 		}
 		return nil, false
+	case "encoding/binary.Read":
+		if di, ok := x.Call.Args[2].(*ssa.MakeInterface); ok {
+			if pt, ok := di.X.Type().Underlying().(*types.Pointer); ok {
+				if _, ok := pt.Elem().Underlying().(*types.Struct); ok {
+					return []string{structHeapPrefix(pt.Elem()), "G:rpos", "G:faults"}, true
+				}
+			}
+		}
+		return nil, false
 	case "(*bytes.Buffer).Bytes", "(*bytes.Buffer).Len", "(*bytes.Buffer).String", "sort.Search":
 		return nil, true
 	}
@@ -184,6 +193,10 @@ func (f *FuncVC) libCall(st *State, x *ssa.Call, args []*Val) (*Val, bool) {
 		r := f.freshTyped(st, resTy, "buflen")
 		f.fact(st, cmp(">=", r.T, "0"))
 		return r, true
+	case "encoding/binary.Read":
+		if r, ok := f.binaryRead(st, x, args); ok {
+			return r, true
+		}
 	case "encoding/binary.Write":
 		// assumed: serialises into the writer argument; when that writer is a
 		// *bytes.Buffer created locally nothing visible to our heaps changes
@@ -266,4 +279,131 @@ func binarySize(t types.Type) (int64, bool) {
 		return total, true
 	}
 	return 0, false
+}
+
+// binaryRead models encoding/binary.Read(r, binary.BigEndian, &structValue)
+// for structs of fixed-size integer fields and integer arrays: the fields are
+// the big-endian interpretation of consecutive bytes of the reader's input, in
+// declaration order (assumed behaviour of encoding/binary, A-EXT).
+func (f *FuncVC) binaryRead(st *State, x *ssa.Call, args []*Val) (*Val, bool) {
+	di, ok := x.Call.Args[2].(*ssa.MakeInterface)
+	if !ok {
+		return nil, false
+	}
+	pt, ok := di.X.Type().Underlying().(*types.Pointer)
+	if !ok {
+		return nil, false
+	}
+	sty, ok := pt.Elem().Underlying().(*types.Struct)
+	if !ok {
+		return nil, false
+	}
+	size, ok := binarySize(pt.Elem())
+	if !ok {
+		return nil, false
+	}
+	rd := args[0]
+	obj := f.val(st, di.X)
+	if rd.K != KIface || obj.K != KPtr || obj.P != nil || len(obj.Fs) != 0 {
+		return nil, false
+	}
+	f.usedAssumed["encoding/binary.Read(r, BigEndian, *struct): fields are the big-endian values of consecutive input bytes in declaration order; io.EOF iff no byte could be read, io.ErrUnexpectedEOF on a short read"] = true
+	f.oblige(st, "nil", f.srcAt(x.Pos()), not(eq(rd.Fs[0].T, "0")))
+	pay := rd.Fs[1].T
+	ih := "(Array Int Int)"
+	file := sel(f.heap(st, "G:file", "(Array Int (Array Int Int))"), pay)
+	rposH := f.heap(st, "G:rpos", ih)
+	faultsH := f.heap(st, "G:faults", ih)
+	fsize := sel(f.heap(st, "G:fsize", ih), pay)
+	rpos0 := f.sc.define("rpos0", "Int", sel(rposH, pay))
+	faults0 := sel(faultsH, pay)
+	err := f.freshTyped(st, x.Type(), "binread.err")
+	okT := f.sc.define("binread.ok", "Bool", eq(err.Fs[0].T, "0"))
+	nrpos := f.sc.fresh("rpos")
+	f.sc.declare(nrpos, "Int")
+	nfaults := f.sc.fresh("faults")
+	f.sc.declare(nfaults, "Int")
+	faults0 = f.sc.define("faults0", "Int", faults0)
+	src := f.srcAt(x.Pos())
+	f.applyMod(st, resolvedMod{kind: "ghost", heap: "G:rpos", obj: pay, text: "rpos(r)"}, src)
+	f.applyMod(st, resolvedMod{kind: "ghost", heap: "G:faults", obj: pay, text: "faults(r)"}, src)
+	if f.con != nil && f.con.HasMod {
+		f.frameCheck(st, &PtrInfo{Heap: structHeapPrefix(pt.Elem()), Base: []string{obj.T}})
+	}
+	f.setHeap(st, "G:rpos", ih, store(f.heap(st, "G:rpos", ih), pay, nrpos))
+	f.setHeap(st, "G:faults", ih, store(f.heap(st, "G:faults", ih), pay, nfaults))
+	eofV := f.globalByName("io.EOF", x.Type())
+	ueofV := f.globalByName("io.ErrUnexpectedEOF", x.Type())
+	isEOF := and(eq(err.Fs[0].T, eofV.Fs[0].T), eq(err.Fs[1].T, eofV.Fs[1].T))
+	isUEOF := and(eq(err.Fs[0].T, ueofV.Fs[0].T), eq(err.Fs[1].T, ueofV.Fs[1].T))
+	sz := num(size)
+	f.fact(st, and(
+		cmp(">=", nfaults, faults0),
+		eq(and(not(okT), not(isEOF), not(isUEOF)), cmp(">", nfaults, faults0)),
+		implies(okT, and(eq(nrpos, arith("+", rpos0, sz)), cmp(">=", rpos0, "0"), cmp("<=", arith("+", rpos0, sz), fsize))),
+		implies(isEOF, cmp(">=", rpos0, fsize)),
+		implies(isUEOF, cmp(">", arith("+", rpos0, sz), fsize)),
+		implies(eq(nfaults, faults0), eq(okT, and(cmp(">=", rpos0, "0"), cmp("<=", arith("+", rpos0, sz), fsize)))),
+	))
+	// fields
+	prefix := structHeapPrefix(pt.Elem())
+	off := int64(0)
+	for i := 0; i < sty.NumFields(); i++ {
+		fld := sty.Field(i)
+		n, _ := binarySize(fld.Type())
+		ls := leavesOfType(fld.Type())
+		hn := prefix + "." + fld.Name()
+		switch u := fld.Type().Underlying().(type) {
+		case *types.Basic:
+			if len(ls) == 1 && ls[0].Sort == "Int" {
+				v := "0"
+				for k := int64(0); k < n; k++ {
+					v = arith("+", arith("*", v, "256"), sel(file, arith("+", rpos0, num(off+k))))
+				}
+				if u.Info()&types.IsUnsigned == 0 {
+					v = "(" + wrapName(u) + " " + v + ")"
+				}
+				fr := f.sc.fresh("fld")
+				f.sc.declare(fr, "Int")
+				if lo, hi, ok := intRange(u); ok {
+					f.fact(st, and(cmp("<=", numBig(lo), fr), cmp("<=", fr, numBig(hi))))
+				}
+				h := f.heap(st, hn, ih)
+				f.setHeap(st, hn, ih, store(h, obj.T, ite(okT, v, fr)))
+			}
+		case *types.Array:
+			eb := basicOf(u.Elem())
+			es, _ := binarySize(u.Elem())
+			if eb != nil && len(ls) == 1 {
+				as := "(Array Int (Array Int Int))"
+				arr := f.sc.fresh("fldarr")
+				f.sc.declare(arr, "(Array Int Int)")
+				q := f.sc.fresh("k")
+				v := "0"
+				for k := int64(0); k < es; k++ {
+					v = arith("+", arith("*", v, "256"), sel(file, "(+ "+rpos0+" "+num(off)+" (* "+num(es)+" "+q+") "+num(k)+")"))
+				}
+				if eb.Info()&types.IsUnsigned == 0 {
+					v = "(" + wrapName(eb) + " " + v + ")"
+				}
+				f.fact(st, implies(okT, fmt.Sprintf("(forall ((%s Int)) (! (=> (and (<= 0 %s) (< %s %d)) (= (select %s %s) %s)) :pattern ((select %s %s))))", q, q, q, u.Len(), arr, q, v, arr, q)))
+				if lo, hi, ok := intRange(eb); ok {
+					f.fact(st, fmt.Sprintf("(forall ((%s Int)) (! (and (<= %s (select %s %s)) (<= (select %s %s) %s)) :pattern ((select %s %s))))", q, numBig(lo), arr, q, arr, q, numBig(hi), arr, q))
+				}
+				h := f.heap(st, hn, as)
+				f.setHeap(st, hn, as, store(h, obj.T, arr))
+			}
+		default:
+			// nested structs etc.: havoc the field leaves
+			for _, l := range ls {
+				hs := arraySort(1, l.Sort)
+				h := f.heap(st, hn+l.Path, hs)
+				fr := f.sc.fresh("fld")
+				f.sc.declare(fr, l.Sort)
+				f.setHeap(st, hn+l.Path, hs, store(h, obj.T, fr))
+			}
+		}
+		off += n
+	}
+	return err, true
 }
